@@ -17,7 +17,8 @@
 (* Many runs are concatenated (begin = reset).  An event that no action    *)
 (* explains does not end the validation: the run is REJECTED (one JSON     *)
 (* record per rejected run, with the clauses of the contract that failed), *)
-(* the rest of that run is skipped (field nb = index of the next begin)    *)
+(* the rest of that run is skipped (field skip = events up to the next     *)
+(* begin, position independent so that traces can be cut at run boundaries)*)
 (* and validation continues, so that one pass reports every run that is    *)
 (* not a behaviour of the contract.  The trace is accepted iff all events  *)
 (* are consumed (POSTCONDITION) and no rejection record was printed.       *)
@@ -65,7 +66,10 @@ Why(e) ==
                         IF ~c.running THEN "return_twice"
                         ELSE IF ~c.start THEN "start_modified"
                         ELSE IF ~c.cons /\ ~c.justified THEN "infeasible_and_unjustified"
-                        ELSE IF ~c.cons THEN "return_violates_constraint"
+                        ELSE IF ~c.cons THEN
+                          \* (known deviation of BFGS: the constraint callback is consulted for the start point only)
+                          IF Cardinality({q \in 1..Len(consAt) : consAt[q] # 0}) <= 1
+                          THEN "return_violates_constraint_only_start_checked" ELSE "return_violates_constraint"
                         ELSE IF cfg.fixed THEN "fixed_steps_not_near_optimum"
                         ELSE IF e.stopok THEN "stop_ok_but_far_from_minimiser"
                         ELSE "stop_condition_fails"
@@ -82,9 +86,9 @@ Reject ==
   /\ l <= Len(Trace)
   /\ ~Explained(Ev)
   /\ rej' = [run |-> Ev.run, at |-> l, e |-> Ev.e, why |-> Why(Ev)]
-  /\ l' = IF Ev.e = "begin" THEN l + 1 ELSE Ev.nb      \* skip the rest of the run
+  /\ l' = IF Ev.e = "begin" THEN l + 1 ELSE l + Ev.skip   \* skip the rest of the run
   /\ IF Ev.e = "begin" THEN BeginE(CfgOf(Ev))            \* (a begin inside a run: report, then start the new run)
-     ELSE /\ st' = "idle" /\ cfg' = NoCfg /\ evalOf' = {} /\ consAt' = {} /\ nEvals' = 0 /\ nHooks' = 0
+     ELSE /\ st' = "idle" /\ cfg' = NoCfg /\ evalOf' = <<>> /\ consAt' = <<>> /\ nEvals' = 0 /\ nHooks' = 0
           /\ hookStopped' = FALSE /\ ret' = NoRet
 
 TraceNext == Consume \/ Reject
